@@ -190,6 +190,30 @@ impl<T: Clone> Iterator for Items<T> {
     }
 }
 
+/// `Iterator<Item = &char>` with a size hint of the caller's choosing (a `None` item panics, as in `Items`).
+struct RefCharItems<'a> {
+    items: &'a [Option<char>],
+    pos: usize,
+    hint: usize,
+}
+impl<'a> Iterator for RefCharItems<'a> {
+    type Item = &'a char;
+    fn next(&mut self) -> Option<&'a char> {
+        if self.pos >= self.items.len() {
+            return None;
+        }
+        let it = &self.items[self.pos];
+        self.pos += 1;
+        match it {
+            Some(x) => Some(x),
+            None => panic!("{}", CB_PANIC),
+        }
+    }
+    fn size_hint(&self) -> (usize, Option<usize>) {
+        (self.hint, None)
+    }
+}
+
 /// The same items borrowed: `Iterator<Item = &str>` (a `None` item panics, as in `Items`).
 struct RefItems<'a> {
     items: &'a [Option<String>],
@@ -705,9 +729,15 @@ impl Exec {
                         )
                     } else {
                         let hint = Self::num(t.get(2))?;
+                        let store = items.clone();
+                        // `Extend<char>` or `Extend<&char>` (same items, same hint): decided by the line itself
+                        let by_ref = items.len().wrapping_add(hint) % 2 == 1;
                         let (i1, i2) = (Items { items: items.clone(), pos: 0, hint }, Items { items, pos: 0, hint: 0 });
                         (
-                            guarded(|| { ls.extend(i1); Out::Ok(String::new()) }),
+                            guarded(|| {
+                                if by_ref { ls.extend(RefCharItems { items: &store, pos: 0, hint }) } else { ls.extend(i1) };
+                                Out::Ok(String::new())
+                            }),
                             guarded(|| { or.extend(i2); Out::Ok(String::new()) }),
                         )
                     }
@@ -719,8 +749,20 @@ impl Exec {
                     if base == "write" {
                         (
                             guarded(|| {
-                                for s in i1 {
-                                    if std::fmt::Write::write_str(&mut ls, &s).is_err() {
+                                use std::fmt::Write;
+                                // every way into `fmt::Write`: `write_str`, `write!` with a run-time argument
+                                // (`write_fmt`), and `write_char` for one-character pieces
+                                for (k, s) in i1.enumerate() {
+                                    let r = if s.chars().count() == 1 && k % 2 == 0 {
+                                        ls.write_char(s.chars().next().unwrap())
+                                    } else if k % 3 == 1 {
+                                        write!(ls, "{}", std::hint::black_box(s.as_str()))
+                                    } else if k % 3 == 2 {
+                                        ls.write_fmt(format_args!("{}{}", std::hint::black_box(""), std::hint::black_box(s.as_str())))
+                                    } else {
+                                        ls.write_str(&s)
+                                    };
+                                    if r.is_err() {
                                         return Out::ErrFmt;
                                     }
                                 }
@@ -1420,7 +1462,9 @@ impl Exec {
                 }
             }
         }
-        if matches!(base, "push" | "push_str" | "insert" | "insert_str" | "add_assign") && ok {
+        // every appending entry point: `write` (write_str / write! / write_char), `extend` with string items and the by-value
+        // `+` included (`extend_chars` may legitimately reserve for its size hint and is left out)
+        if matches!(base, "push" | "push_str" | "insert" | "insert_str" | "add_assign" | "add" | "write" | "extend_strs") && ok {
             if let (Some(b), Some(a)) = (&b_t, &a_t) {
                 let owned = b.kind == 'I' || (b.kind == 'H' && b.rc == Some(1));
                 if owned && a.len <= b.cap {
